@@ -30,8 +30,8 @@ def conds(tier):
                     budget=200, family="F-CTX x F-REENTRY: scoped overrides entered after synchronous calls, read by siblings",
                     encodes=core.ENC_SCHED + ctx.ENC_CTX))
     if not q:
-        out.append(Cond("tree4", core.mk_tree(P, 4, 3, 3), core.tree_params(4, 3, 3), pin=4, budget=900,
-                        family="F-TREE(4,3,3)", encodes=core.ENC_SCHED))
+        out.append(Cond("tree4", core.mk_tree(P, 4, 2, 2), core.tree_params(4, 2, 2), pin=4, budget=900,
+                        family="F-TREE(4,2,2)", encodes=core.ENC_SCHED))
         out.append(Cond("steps3", core.mk_steps(P, 3, 3, 2, 2), core.steps_params(3, 3, 2, 2), pin=3,
                         budget=600, family="F-STEPS(3,3,2)", encodes=core.ENC_SCHED))
     return out
